@@ -74,6 +74,7 @@ func registry() map[string]*Rule {
 		{Name: "ADP7", Floor: 1, Run: ruleADP7, Doc: "the adapters do not switch off badger conflict detection or bbolt fsync-on-commit"},
 		{Name: "IDX7", Floor: 3, Run: ruleIDX7, Doc: "a function that read the collection's catalog record writes that record back, not a freshly built one"},
 		{Name: "SKIP1", Floor: 0, Run: ruleSKIP1, Doc: "abstract evaluation of Query.Skip: a negative argument stores nothing into the skip field; zero/positive are stored as given"},
+		{Name: "PLAN9", Floor: 3, Run: rulePLAN9, Doc: "rows of the criteria->range table for operators other than Eq are reached only with a non-nil operand (a nil bound means unbounded)"},
 	}
 	m := map[string]*Rule{}
 	for _, r := range rules {
@@ -108,7 +109,7 @@ func propertyTable() map[string]*Property {
 		},
 		"C02": {
 			Technique:   tSSA + "SSA guard analysis of the planner (re-filter, And-only intersection, negation push-down closure), finite table extraction, index-maintenance dominance, key-template analysis",
-			Rules:       []string{"PLAN1", "PLAN2", "PLAN3", "PLAN6", "PLAN7", "PLAN8", "IDX1", "IDX2", "IDX6", "KEY1", "KEY2", "KEY3", "KEY5", "VIS1"},
+			Rules:       []string{"PLAN1", "PLAN2", "PLAN3", "PLAN6", "PLAN7", "PLAN8", "PLAN9", "IDX1", "IDX2", "IDX6", "KEY1", "KEY2", "KEY3", "KEY5", "VIS1"},
 			Explanation: "Decides structural clauses of C02: index candidates are always re-checked against the full criteria (PLAN1); ranges of the two sides are intersected only under a conjunction and no range is produced for a disjunction or below a surviving negation (PLAN2, PLAN3); the negation push-down never returns an unvisited child (PLAN3); the two finite tables Not(op)->complement and op->range equal the mathematical ones row by row (PLAN6, decided completely); index entries follow every document write/delete, and old entries are located before a user updater may mutate the document (IDX1, IDX2); an index scan sees exactly its own entries and add/remove use one key layout (KEY1-KEY3); planning visitors cannot return a value their callers' unchecked assertions reject (VIS1).",
 			NotDecided:  "That a derived range contains every matching value for all values (nil bounds, Range.IsEmpty, inclusive ends in reverse scans), and that sort elision is taken only when the index order equals the requested order. Value-level.",
 			Assumptions: commonAssumptions,
@@ -213,7 +214,7 @@ func propertyTable() map[string]*Property {
 		},
 		"C17": {
 			Technique:   tSSA + "key-template analysis of seek targets and scan bounds, error and callback-loop rules in the range index",
-			Rules:       []string{"KEY1~^index\\.", "KEY2", "KEY3", "KEY5", "RNG1", "RNG2", "ERR1~^index\\.", "ERR3~^index\\."},
+			Rules:       []string{"KEY1~^index\\.", "KEY2", "KEY3", "KEY5", "RNG1", "RNG2", "PLAN9", "ERR1~^index\\.", "ERR3~^index\\."},
 			Explanation: "Decides structural clauses of C17: a range scan or full iteration is bounded by a prefix that covers exactly the index's own entries, add and remove use one layout (KEY1-KEY3); specialised on reverse = true, every seek target carries the 0xFF upper sentinel, without which an inclusive upper bound loses its entries in descending scans (KEY5); seek and item errors are propagated (ERR1); the scan stops when the consumer asks and the stop does not escape (ERR3).",
 			NotDecided:  "Bound arithmetic: inclusive/exclusive ends, emptiness and intersection of ranges over values, order of the yielded ids.",
 			Assumptions: commonAssumptions,
